@@ -125,6 +125,14 @@ def register(reg):
                       ('property', f"result == {{'__vallue__': out_ret(self.exp, {OTOP})}}")],
              raises=fails, propagates=[GROW])
 
+    # `@+:e`: the first one starts a list, later ones add an element (AST.__setitem__ adds to what is there)
+    OVL = (f"spec_cstadd(dict_get({OUTF}.ast, uf_safekey('__vallue__')), "
+           f"(out_ret(self.exp, {OTOP}) if dict_has({OUTF}.ast, '__vallue__') else [out_ret(self.exp, {OTOP})]))")
+    contract(reg, f'{Nm}:OverrideList._parse', ALL, {'self': 'opaque:Model', 'ctx': 'Ctx'}, ret='Val', requires=REQ,
+             ensures=[('property', f'out_ok(self.exp, {OTOP})'),
+                      ('property', f"{STK} == {OSTK}[:-1] + [spec_with_ast({OUTF}, dict_with({OUTF}.ast, uf_safekey('__vallue__'), {OVL}))]")],
+             raises=fails, propagates=[GROW])
+
     # ------------------------------------------------------------------ ordered choice with cut (docs/syntax.rst)
     Ch = 'tatsu/peg/choice.py'
     OPTF = f'spec_with_ast(spec_fresh({OTOP}), uf_defined_by({OTOP}.ast, self.options[{{j}}]))'
